@@ -529,6 +529,9 @@ func collectGoFiles(limit int) []string {
 	var files []string
 	roots := []string{filepath.Join(drv.RepoDir(), "compiler"), filepath.Join(drv.RepoDir(), "build"), filepath.Join(drv.RepoDir(), "tests"), filepath.Join(goroot(), "src")}
 	for _, r := range roots {
+		if rr, err := filepath.EvalSymlinks(r); err == nil {
+			r = rr
+		}
 		filepath.Walk(r, func(p string, info os.FileInfo, err error) error {
 			if err != nil {
 				return nil
